@@ -133,7 +133,9 @@ Definition f_trunc_to_Z (f : float) : option Z :=
   | S754_zero _ => Some 0
   | S754_finite s m e =>
       let mag := if 0 <=? e then Z.pos m * 2 ^ e else Z.pos m / 2 ^ (- e) in
-      Some (if s then - mag else mag)
+      let z := if s then - mag else mag in
+      (* float64ToInt64: out-of-range floats are converted to the nearest integer *)
+      Some (if in_int64 z then z else if z <? 0 then min_int64 else max_int64)
   | _ => None
   end.
 Definition to_integer (v : val) : option Z :=
